@@ -536,7 +536,15 @@ pub fn stack_family() -> Vec<StackD> {
     // an upper layer whose own pitch is smaller than the least common multiple of the same-direction pitches
     // below it: 1200 under 600 (horizontal), and 400 under 600 (vertical, lcm 1200)
     f.push(StackD { name: "HVH gap-sig-gap pitch 1200 / sig-gap / gap-sig-gap pitch 600", prim: (200, 300), layers: vec![wide, pat_a(v, 400), pat_b(h, 600)], vias: vias.clone() });
-    f.push(StackD { name: "VHV sig-gap pitch 400 / gap-sig-gap / gap-sig-gap pitch 600", prim: (200, 300), layers: vec![pat_a(v, 400), pat_b(h, 600), pat_b(v, 600)], vias });
+    f.push(StackD { name: "VHV sig-gap pitch 400 / gap-sig-gap / gap-sig-gap pitch 600", prim: (200, 300), layers: vec![pat_a(v, 400), pat_b(h, 600), pat_b(v, 600)], vias: vias.clone() });
+    // flipping layers whose offset is not -overlap/2 (rails+flip starting at 0; asymmetric+flip shifted by 30): period p
+    // starts at offset + p * pitch and lists its entries backwards when p is odd - the reading under which wires, cuts
+    // and vias of one crossing coincide
+    let mut c0 = pat_c(h, 600);
+    c0.offset = 0;
+    let mut e30 = pat_e(v, 400, true);
+    e30.offset += 30;
+    f.push(StackD { name: "HVH rails+flip offset 0 / asymmetric+flip offset+30 / gap-sig-gap", prim: (200, 300), layers: vec![c0, e30, pat_b(h, 600)], vias });
     f
 }
 
@@ -580,9 +588,6 @@ pub fn self_check() -> Result<(), String> {
             }
             if l.cutsize % 2 != 0 || l.entries().iter().any(|e| e.w % 2 != 0) {
                 return Err(format!("stack {}: odd size", s.name));
-            }
-            if l.flip && l.offset * 2 != -l.overlap {
-                return Err(format!("stack {}: flipping layer whose offset is not -overlap/2 (mirror axis ambiguous)", s.name));
             }
             // flipping keeps the rails of adjacent periods coincident
             if l.flip && l.overlap > 0 {
